@@ -12,6 +12,8 @@ CONSTANTS
   IgnoreNegation = FALSE
   PipeFirst = FALSE
   FormatInKeyOrder = FALSE
+  SplitLimit = 0
+  LimitedSplits = {}
   KeyOrders <- OneKeyOrder
 SPECIFICATION TSpec
 CHECK_DEADLOCK FALSE
